@@ -750,7 +750,87 @@ func (c *Ctx) knownStringKey(at ssa.Instruction, keyVal ssa.Value) (string, bool
 			}
 		}
 	}
+	// the name is known through a table: a field of a local struct that was set from
+	// table[name] is compared with a constant that the table gives to exactly one name
+	for cond, val := range c.factsAt(at) {
+		b, ok := cond.(*ssa.BinOp)
+		if !ok || b.Op != token.EQL || !val {
+			continue
+		}
+		for _, pair := range [][2]ssa.Value{{b.X, b.Y}, {b.Y, b.X}} {
+			want, isC := pair[1].(*ssa.Const)
+			if !isC {
+				continue
+			}
+			ld, isLd := pair[0].(*ssa.UnOp)
+			if !isLd || ld.Op != token.MUL {
+				continue
+			}
+			fa, isFA := ld.X.(*ssa.FieldAddr)
+			if !isFA {
+				continue
+			}
+			al, isAl := fa.X.(*ssa.Alloc)
+			if !isAl {
+				continue
+			}
+			// every store to that field of that variable
+			var names []string
+			clean := true
+			for _, r := range referrers(al) {
+				fa2, ok := r.(*ssa.FieldAddr)
+				if !ok || fa2.Field != fa.Field {
+					continue
+				}
+				for _, rr := range referrers(fa2) {
+					st, ok := rr.(*ssa.Store)
+					if !ok || st.Addr != ssa.Value(fa2) {
+						continue
+					}
+					sv := stripConv(st.Val)
+					if cst, ok := sv.(*ssa.Const); ok {
+						if constantEqual(cst, want) {
+							clean = false // the tested value is also a default
+						}
+						continue
+					}
+					ex, ok := sv.(*ssa.Extract)
+					if !ok || ex.Index != 0 {
+						clean = false
+						continue
+					}
+					lk, ok := ex.Tuple.(*ssa.Lookup)
+					if !ok || lk.Index != keyVal {
+						clean = false
+						continue
+					}
+					entries, okT := c.globalMapEntries(lk.X)
+					if !okT {
+						clean = false
+						continue
+					}
+					for _, e := range entries {
+						if ec, ok := e[1].(*ssa.Const); ok && constantEqual(ec, want) {
+							if ks, ok := constString(e[0]); ok {
+								names = append(names, ks)
+							}
+						}
+					}
+				}
+			}
+			if clean && len(names) == 1 {
+				return names[0], true
+			}
+		}
+	}
 	return "", false
+}
+
+func constantEqual(a, b *ssa.Const) bool {
+	if a.Value == nil || b.Value == nil {
+		return a.Value == nil && b.Value == nil
+	}
+	return a.Value.ExactString() == b.Value.ExactString()
 }
 
 // ---------- RX-REBUILD ----------
@@ -889,6 +969,17 @@ func stringOperands(v ssa.Value, depth int) []ssa.Value {
 	case *ssa.MakeInterface:
 		return stringOperands(x.X, depth+1)
 	case *ssa.Call:
+		if bi, isB := x.Call.Value.(*ssa.Builtin); isB && bi.Name() == "append" && len(x.Call.Args) > 0 && isFreshBuffer(x.Call.Args[0], 0) {
+			// a line assembled in a buffer of its own: append(append(make([]byte, 0, n), a...), b...)
+			var out []ssa.Value
+			if inner, ok := x.Call.Args[0].(*ssa.Call); ok {
+				out = append(out, stringOperands(inner, depth+1)...)
+			}
+			for _, a := range x.Call.Args[1:] {
+				out = append(out, stringOperands(a, depth+1)...)
+			}
+			return out
+		}
 		if bi, isB := x.Call.Value.(*ssa.Builtin); isB && bi.Name() == "append" && len(x.Call.Args) > 0 && isConstConv(x.Call.Args[0]) {
 			var out []ssa.Value
 			for _, a := range x.Call.Args {
@@ -896,9 +987,36 @@ func stringOperands(v ssa.Value, depth int) []ssa.Value {
 			}
 			return out
 		}
+		if bf := staticCallee(&x.Call); bf != nil && (recvNamed(bf) == "Builder" || recvNamed(bf) == "Buffer") && (bf.Name() == "String" || bf.Name() == "Bytes") && len(x.Call.Args) == 1 {
+			// everything written into the builder, in order
+			var out []ssa.Value
+			for _, w := range builderWrites(x.Call.Args[0]) {
+				out = append(out, stringOperands(w, depth+1)...)
+			}
+			if len(out) > 0 {
+				return out
+			}
+		}
 		f := staticCallee(&x.Call)
 		if isFn(f, "fmt", "Sprintf") || isFn(f, "fmt", "Sprint") || isFn(f, "fmt", "Sprintln") || isFn(f, "fmt", "Appendf") || isFn(f, "fmt", "Append") || isFn(f, "fmt", "Appendln") || isConcatHelper(staticFn(&x.Call)) {
 			var out []ssa.Value
+			if sep, ok := joinHelperSep(staticFn(&x.Call)); ok && sep != nil {
+				// marker, then the arguments separated by the constant
+				for i, a := range x.Call.Args {
+					if sl, ok := a.(*ssa.Slice); ok {
+						for j, e := range variadicElems(sl) {
+							if j > 0 {
+								out = append(out, sep)
+							}
+							out = append(out, stringOperands(e, depth+1)...)
+						}
+					} else {
+						_ = i
+						out = append(out, stringOperands(a, depth+1)...)
+					}
+				}
+				return out
+			}
 			for _, a := range x.Call.Args {
 				if sl, ok := a.(*ssa.Slice); ok {
 					out = append(out, variadicElems(sl)...)
@@ -1006,6 +1124,16 @@ func (c *Ctx) RuleRxRebuild() *Result {
 						found = true
 						break
 					}
+					// written into a strings.Builder / bytes.Buffer: the text is what String() / Bytes() yields
+					if wf := staticCallee(&x.Call); wf != nil && (recvNamed(wf) == "Builder" || recvNamed(wf) == "Buffer") && strings.HasPrefix(wf.Name(), "Write") && len(x.Call.Args) == 2 && x.Call.Args[1] == v && isElemOrParam(elem, builderParam, v) {
+						for _, out := range builderOutputs(x.Call.Args[0]) {
+							if !climb(out, depth+1) {
+								roots[out] = true
+							}
+							found = true
+						}
+						break
+					}
 					// a string-building helper of the repository (returns the text): the group, or the
 					// text built so far, arrives in its parameter; only what the helper returns counts
 					sf := staticFn(&x.Call)
@@ -1110,6 +1238,10 @@ func (c *Ctx) RuleRxRebuild() *Result {
 					info.constants = append(info.constants, sv)
 					continue
 				}
+				if sv, ok := c.globalConstText(op); ok {
+					info.constants = append(info.constants, sv)
+					continue
+				}
 				if isBuilderOf(op, roots) || builderParam[op] {
 					continue
 				}
@@ -1168,6 +1300,22 @@ func (c *Ctx) RuleRxRebuild() *Result {
 						// the group is read inside the conditional part (otherwise it belongs to what was built before)
 						t := d.Succs[1-oi]
 						if oin, ok := op.(ssa.Instruction); !ok || !t.Dominates(oin.Block()) {
+							continue
+						}
+						// the other side puts the group back as well (if long form ... else short form ...)
+						otherToo := false
+						for root2 := range roots {
+							r2, ok := root2.(ssa.Instruction)
+							if !ok || r2.Parent() != s.fn || !(o == r2.Block() || o.Dominates(r2.Block())) {
+								continue
+							}
+							for _, op2 := range stringOperands(root2, 0) {
+								if g2, ok := elem[op2]; ok && g2 == g {
+									otherToo = true
+								}
+							}
+						}
+						if otherToo {
 							continue
 						}
 						res.Instances++
@@ -1438,6 +1586,9 @@ func isConcatHelper(fn *ssa.Function) bool {
 	if fn == nil || len(fn.Blocks) == 0 || fn.Signature.Results().Len() != 1 || !isTextType(fn.Signature.Results().At(0).Type()) || !load.InModule(load.FnPkgPath(fn)) {
 		return false
 	}
+	if _, ok := joinHelperSep(fn); ok {
+		return true
+	}
 	if len(fn.Params) == 0 {
 		return false
 	}
@@ -1518,4 +1669,233 @@ func isConcatHelper(fn *ssa.Function) bool {
 		}
 	}
 	return true
+}
+
+// isFreshBuffer: an empty slice of its own (make, nil, x[:0] of such), or an append chain that starts with one.
+func isFreshBuffer(v ssa.Value, depth int) bool {
+	if depth > 6 {
+		return false
+	}
+	switch x := v.(type) {
+	case *ssa.MakeSlice:
+		if k, ok := constInt(x.Len); ok && k == 0 {
+			return true
+		}
+	case *ssa.Const:
+		return x.Value == nil
+	case *ssa.Call:
+		if bi, isB := x.Call.Value.(*ssa.Builtin); isB && bi.Name() == "append" && len(x.Call.Args) > 0 {
+			return isFreshBuffer(x.Call.Args[0], depth+1)
+		}
+	}
+	return false
+}
+
+// builderWrites: the data arguments of the Write* calls on the builder value recv, in program order
+// (block index, then instruction index: the builders of the repository are filled in straight-line code).
+func builderWrites(recv ssa.Value) []ssa.Value {
+	type w struct {
+		b, i int
+		v    ssa.Value
+	}
+	var ws []w
+	for _, r := range referrers(recv) {
+		call, ok := r.(*ssa.Call)
+		if !ok || len(call.Call.Args) != 2 || call.Call.Args[0] != recv {
+			continue
+		}
+		f := staticCallee(&call.Call)
+		if f == nil || !strings.HasPrefix(f.Name(), "Write") {
+			continue
+		}
+		ws = append(ws, w{call.Block().Index, instrIndex(call), call.Call.Args[1]})
+	}
+	sort.Slice(ws, func(i, j int) bool {
+		if ws[i].b != ws[j].b {
+			return ws[i].b < ws[j].b
+		}
+		return ws[i].i < ws[j].i
+	})
+	var out []ssa.Value
+	for _, x := range ws {
+		out = append(out, x.v)
+	}
+	return out
+}
+
+// builderOutputs: the String() / Bytes() calls on the builder value recv.
+func builderOutputs(recv ssa.Value) []ssa.Value {
+	var out []ssa.Value
+	for _, r := range referrers(recv) {
+		call, ok := r.(*ssa.Call)
+		if !ok || len(call.Call.Args) != 1 || call.Call.Args[0] != recv {
+			continue
+		}
+		if f := staticCallee(&call.Call); f != nil && (f.Name() == "String" || f.Name() == "Bytes") {
+			out = append(out, call)
+		}
+	}
+	return out
+}
+
+// isElemOrParam: v is a captured group (possibly converted) or a parameter through which one arrived:
+// only those are pieces of a line that is being put together in a builder; a finished line written to
+// the output buffer of the whole file is not.
+func isElemOrParam(elem map[ssa.Value]int, builderParam map[ssa.Value]bool, v ssa.Value) bool {
+	if _, ok := elem[v]; ok {
+		return true
+	}
+	if _, ok := elem[stripConv(v)]; ok {
+		return true
+	}
+	return builderParam[v] || builderParam[stripConv(v)]
+}
+
+// joinHelperSep: fn returns its text parameter followed by the elements of its
+// variadic parameter; when a constant is appended between the elements (only
+// under "index > 0" inside the range loop) that constant is returned as the
+// separator (nil separator: plain concatenation is isConcatHelper's business).
+func joinHelperSep(fn *ssa.Function) (sep ssa.Value, ok bool) {
+	if fn == nil || len(fn.Blocks) == 0 || fn.Signature.Results().Len() != 1 || !isTextType(fn.Signature.Results().At(0).Type()) || !load.InModule(load.FnPkgPath(fn)) {
+		return nil, false
+	}
+	if !fn.Signature.Variadic() || len(fn.Params) < 1 {
+		return nil, false
+	}
+	vp := fn.Params[len(fn.Params)-1]
+	st, isSlice := vp.Type().Underlying().(*types.Slice)
+	if !isSlice || !isTextType(st.Elem()) {
+		return nil, false
+	}
+	okCalls := true
+	var constAppends []*ssa.Call
+	elemAppends, paramAppends := 0, 0
+	allInstrs(fn, func(in ssa.Instruction) {
+		cc := callCommon(in)
+		if cc == nil {
+			return
+		}
+		bi, isB := cc.Value.(*ssa.Builtin)
+		if !isB {
+			okCalls = false
+			return
+		}
+		switch bi.Name() {
+		case "len", "cap", "copy":
+			return
+		case "append":
+		default:
+			okCalls = false
+			return
+		}
+		if len(cc.Args) != 2 {
+			okCalls = false
+			return
+		}
+		src := stripConv(cc.Args[1])
+		// constant: a literal string / byte(s)
+		if _, isC := constString(src); isC {
+			constAppends = append(constAppends, in.(*ssa.Call))
+			return
+		}
+		if sl, ok := src.(*ssa.Slice); ok {
+			els := variadicElems(sl)
+			allConst := len(els) > 0
+			for _, e := range els {
+				if _, isC := e.(*ssa.Const); !isC {
+					allConst = false
+				}
+			}
+			if allConst {
+				constAppends = append(constAppends, in.(*ssa.Call))
+				return
+			}
+		}
+		if p, isP := src.(*ssa.Parameter); isP && isTextType(p.Type()) {
+			paramAppends++
+			return
+		}
+		if ld, isLd := src.(*ssa.UnOp); isLd && ld.Op == token.MUL {
+			if ia, isIA := ld.X.(*ssa.IndexAddr); isIA && ia.X == ssa.Value(vp) {
+				elemAppends++
+				return
+			}
+		}
+		okCalls = false
+	})
+	if !okCalls || elemAppends != 1 || paramAppends > len(fn.Params)-1 {
+		return nil, false
+	}
+	if len(constAppends) == 0 {
+		return nil, false
+	}
+	if len(constAppends) != 1 {
+		return nil, false
+	}
+	ca := constAppends[0]
+	// guarded by "index > 0" / "index != 0"
+	guarded := false
+	for d := ca.Block(); d != nil; d = d.Idom() {
+		dd := d.Idom()
+		if dd == nil {
+			break
+		}
+		iff, isIf := dd.Instrs[len(dd.Instrs)-1].(*ssa.If)
+		if !isIf || dd.Succs[0] != d || len(d.Preds) != 1 {
+			continue
+		}
+		if cmp, isCmp := iff.Cond.(*ssa.BinOp); isCmp && (cmp.Op == token.GTR || cmp.Op == token.NEQ) {
+			if k, isK := constInt(cmp.Y); isK && k == 0 {
+				guarded = true
+			}
+		}
+		break
+	}
+	if !guarded {
+		return nil, false
+	}
+	src := stripConv(ca.Call.Args[1])
+	if _, isC := constString(src); isC {
+		return src, true
+	}
+	if sl, ok := src.(*ssa.Slice); ok {
+		els := variadicElems(sl)
+		if len(els) == 1 {
+			return els[0], true
+		}
+	}
+	return nil, false
+}
+
+// globalConstText: v reads a package-level variable of the repository that is
+// assigned once, by its initialiser, from a constant text ([]byte("--")).
+func (c *Ctx) globalConstText(v ssa.Value) (string, bool) {
+	ld, ok := stripConv(v).(*ssa.UnOp)
+	if !ok || ld.Op != token.MUL {
+		return "", false
+	}
+	g, ok := ld.X.(*ssa.Global)
+	if !ok || g.Pkg == nil || !load.InModule(g.Pkg.Pkg.Path()) {
+		return "", false
+	}
+	text, n, clean := "", 0, true
+	for _, fn := range c.P.RepoFns {
+		allInstrs(fn, func(in ssa.Instruction) {
+			st, ok := in.(*ssa.Store)
+			if !ok || st.Addr != ssa.Value(g) {
+				return
+			}
+			n++
+			if fn.Name() != "init" {
+				clean = false
+				return
+			}
+			if sv, ok := constString(stripConv(st.Val)); ok {
+				text = sv
+			} else {
+				clean = false
+			}
+		})
+	}
+	return text, clean && n == 1
 }
